@@ -34,6 +34,7 @@
 #include <soundswallower/decoder.h>
 #include <soundswallower/err.h>
 #include <soundswallower/feat.h>
+#include <soundswallower/hmm.h>
 #include <soundswallower/logmath.h>
 #include <soundswallower/ms_gauden.h>
 #include <soundswallower/ms_mgau.h>
@@ -610,6 +611,23 @@ static void s3_child(void *arg)
         else emit(" ok %d %ld %ld", cb ? 16 : 0, (long)((const char *)mixw[0][0] - (const char *)s->buf), (long)(s->ptr - (const char *)s->buf));
         ckd_free_2d(mixw);
         s3file_free(s);
+    } else if (n == 6 && !strcmp(w[1], "mixw")) {
+        s3file_t *s;
+        gauden_t g;
+        logmath_t *lm = logmath_init(1.0001, SENSCR_SHIFT, TRUE);
+        uint8 ***mixw = NULL;
+        int32 n_sen = 0;
+        int rv;
+        memset(&g, 0, sizeof(g));
+        g.n_feat = atoi(w[4]);
+        g.n_density = atoi(w[5]);
+        if ((b = load_src(w[2], w[3], &len)) == NULL) { emit(" bad-src"); return; }
+        s = s3file_init(b, len);
+        rv = read_mixw(s, &g, lm, &n_sen, &mixw, 0.0000001);
+        if (rv < 0) emit(" rej"); else emit(" ok %d", n_sen);
+        ckd_free_3d(mixw);
+        s3file_free(s);
+        logmath_free(lm);
     } else {
         emit(" bad-op");
         return;
